@@ -35,11 +35,13 @@ func argsChecked(o *Obs) int64 {
 }
 
 func runC04(c *eng.Ctx) {
+	BuildDoors = true // Build / BuildWithContext / BuildWithOptions in turn (a function of the spec)
 	cr := &caseRunner{c: c, prop: "C04"}
 	defer func() {
 		RunEqualValues(c, "C04", cr.next)
 		RunZeroValuedOutputs(c, cr.next)
 		RunVariadic(c, "C04", cr.next)
+		RunSameNamedParamObjects(c, cr.next)
 	}()
 	finish := func(idx int, r *Run, kind string) {
 		o := Digest(r)
@@ -442,6 +444,7 @@ func applyTargetForm(r *Reg, t string, f pool.Form) {
 }
 
 func runC07(c *eng.Ctx) {
+	BuildDoors = true // Build / BuildWithContext / BuildWithOptions in turn (a function of the spec)
 	cr := &caseRunner{c: c, prop: "C07"}
 	defer func() { RunSameConstructor(c, "C07", cr.next); RunPartialOutputs(c, "C07", cr.next) }()
 	lifes := allLifetimes
@@ -868,6 +871,7 @@ func acceptFeature(m *Model, err error) string {
 }
 
 func runC08(c *eng.Ctx) {
+	BuildDoors = true // Build / BuildWithContext / BuildWithOptions in turn (a function of the spec)
 	cr := &caseRunner{c: c, prop: "C08"}
 	defer func() { RunLateRegistration(c, cr.next); RunBuildTimeScope(c, cr.next); RunVariadic(c, "C08", cr.next); RunZeroSingleResults(c, cr.next); RunRefusedThenValid(c, "C08", cr.next) }()
 	exec := func(idx int, s *Spec, m *Model, kind string) {
